@@ -424,6 +424,12 @@ func (p *Parent) finish(start time.Time) int {
 	knownHit := map[string]int64{}
 	var violations int64
 	os.MkdirAll(filepath.Join(p.Root, "replays", id), 0o755)
+	// replay files of earlier runs of this tier and seed are stale now
+	if old, _ := filepath.Glob(filepath.Join(p.Root, "replays", id, fmt.Sprintf("%s-s%d-*", p.Tier, p.Seed))); len(old) > 0 {
+		for _, f := range old {
+			os.Remove(f)
+		}
+	}
 	for _, d := range p.Devs {
 		if p.SigCounts[d.Sig] == 0 {
 			p.SigCounts[d.Sig] = 1
